@@ -23,6 +23,7 @@ import re
 import shlex
 from pathlib import Path
 
+import common
 from common import Suite, Violation, err_enum, quiet, scratch_dir
 import jadeenv
 
@@ -228,7 +229,7 @@ class PipelineSuite(Suite):
                 pass
 
             time = staticmethod(__import__("time").time)
-        rc.time = _T
+        rc.time = common.dual_time(_T)
         jadeenv.no_repo_info()
         os.environ.setdefault("USER", "verif")
 
